@@ -132,22 +132,35 @@ Definition recorded (o : obs) : list N := tomb_mats (o_tomb o) ++ marker_mats (o
 (* keys the resolver treats as trust anchors when a run starts: Valid|Missing in
    the state file (or the live set when there is no readable state file), plus
    the configured keys; never REVOKE-flagged, never recorded as revoked *)
+(* The anchor table holds ONE key per key tag (TrustAnchors is keyed by tag): when the state file is
+   absent the live keys are seeded in order, a later key with the same tag replacing an earlier one;
+   a configured key is merged only when its tag is free (so an AddPend entry of the same key keeps it
+   pending, and a configured key whose tag is taken is not an anchor). *)
 Definition trusted_pre (cfg : list key) (pre : obs) (fl : faults) : list key :=
-  let base := match (if f_sread fl then None else o_state pre) with
-              | Some s => trusted_keys s
-              | None => o_live pre
-              end in
   let dead := (match f_tread fl with TRUnreadable => [] | _ => tomb_mats (o_tomb pre) end)
               ++ (if f_sread fl then [] else marker_mats (o_state pre))
               ++ mats (filter (fun k => is_ksk k && is_rev k) cfg) in
-  (* a configured key is merged only when the state holds nothing for it yet (an AddPend entry
-     of the same key keeps it pending) *)
-  let held := match (if f_sread fl then None else o_state pre) with
-              | Some s => kmap_mats (Some s)
-              | None => mats (o_live pre)
+  let seeded := fold_left (fun acc k => if is_ksk k then k :: filter (fun k2 => negb (tag k2 =? tag k)) acc else acc) (o_live pre) [] in
+  let base := match (if f_sread fl then None else o_state pre) with
+              | Some s => trusted_keys s
+              | None => seeded
               end in
-  filter (fun k => is_ksk k && negb (is_rev k) && negb (memN (k_mat k) dead))
-         (base ++ filter (fun k => negb (memN (k_mat k) held)) cfg).
+  let occupied := match (if f_sread fl then None else o_state pre) with
+                  (* tombstone precedence frees the tag of a non-marker entry whose material is dead *)
+                  | Some s => map fst (filter (fun e => is_marker (snd e) || negb (memN (ta_mat (snd e)) dead)) s)
+                  | None => map tag (filter (fun k => is_rev k || negb (memN (k_mat k) dead)) seeded)
+                  end in
+  let merged := fold_left (fun acc k =>
+                             if is_ksk k && negb (memN (tag k) (fst acc)) && negb (memN (k_mat k) dead)
+                             then (tag k :: fst acc, if is_rev k then snd acc else k :: snd acc) else acc)
+                          cfg (occupied, []) in
+  filter (fun k => is_ksk k && negb (is_rev k) && negb (memN (k_mat k) dead)) (base ++ snd merged).
+
+(* another fetched KSK with the same key tag: the code keeps one fetched key per tag (kskFetched), so a
+   shadowed key is invisible to it in that run — a loss of information in the safe direction that the
+   property does not speak about *)
+Definition shadowed (keys : list key) (k : key) : bool :=
+  existsb (fun k2 => is_ksk k2 && negb (key_eqb k2 k) && (tag k2 =? tag k)) keys.
 
 Definition sig_made_by (k : key) (s : sig) : bool :=
   s_ok s && (s_mat s =? k_mat k) && (s_tag s =? tag k) && is_zone k.
@@ -157,7 +170,7 @@ Definition full_auth (T : list key) (sigs : list sig) : bool :=
 (* valid self-signed revocations of trusted anchors presented in this response:
    the trusted (non-revoked) forms *)
 Definition revocations (T keys : list key) (sigs : list sig) : list key :=
-  filter (fun k => existsb (fun k' => is_rev k' && same_except_revoke k k' && existsb (sig_made_by k') sigs) keys) T.
+  filter (fun k => existsb (fun k' => is_rev k' && same_except_revoke k k' && negb (shadowed keys k') && existsb (sig_made_by k') sigs) keys) T.
 
 Record sstate := mk_ss {
   ss_cfg : list key;
@@ -248,7 +261,7 @@ Definition spec_run (ss : sstate) (pre : obs) (now : Z) (fe : fetch) (fl : fault
           else ss_absent ss in
         let s_missing :=
           if fa then
-            forallb (fun k => memN (k_mat k) rev_mats
+            forallb (fun k => memN (k_mat k) rev_mats || shadowed keys k
                               || (negb (memN (k_mat k) fetched_mats) &&
                                   match zlookup (k_mat k) (ss_absent ss) with
                                   | Some t0 => (now - t0 >? spec_hold_rem - 2)%Z
